@@ -400,7 +400,7 @@ func sharedDigest() [4]uint64 {
 }
 
 func C18(r *vf.Run) {
-	r.Rule = "G goroutines (several G / GOMAXPROCS configurations), each owning its own emulator.System (tracing on), cpu65c816.CPU+bus.Bus, cpualt.CPU, asm.Emitter (listing, Clone/Append, Finalize), snes.ROM+Header (BusReader/BusWriter incl. the shared always-failing instance), and calling the eight mapping functions, RegionNames and the colour functions, under the Go race detector, preceded by a cold-start phase in which the first use of every object kind in the process happens on 8 goroutines at once; and followed by 40+ separately created CPUs that are all inside their own program-counter callbacks at the same instant; every actor's result digest is compared with the digest of the same workload run alone; the package-level state digest (hook) is compared before/after every configuration. A cell is a pair of operation kinds observed overlapping in time"
+	r.Rule = "G goroutines (several G / GOMAXPROCS configurations), each owning its own emulator.System (tracing on), cpu65c816.CPU+bus.Bus, cpualt.CPU, asm.Emitter (listing, Clone/Append, Finalize), snes.ROM+Header (BusReader/BusWriter incl. the shared always-failing instance), and calling the eight mapping functions, RegionNames and the colour functions, under the Go race detector, preceded by a cold-start phase in which the first use of every object kind in the process happens on 8 goroutines at once; followed by 40+ separately created CPUs that are all inside their own program-counter callbacks at the same instant, and by emitters of common ancestry (same fragment appended / same parent cloned beforehand) each driven by its own goroutine; every actor's result digest is compared with the digest of the same workload run alone; the package-level state digest (hook) is compared before/after every configuration. A cell is a pair of operation kinds observed overlapping in time"
 	r.Assume = []string{"built with -race by ./check (race reports are read from the GORACE log, the exit code is not trusted)", "sharing one instance between goroutines is not promised and not exercised", "a racy access on a path the workload never drives is not seen"}
 	raceEnabled := false
 	logPath := ""
@@ -637,6 +637,83 @@ func C18(r *vf.Run) {
 		} else {
 			r.CellN("callbacks-in-progress-at-once", int64(atomic.LoadInt32(&arrived)))
 		}
+	}
+	// common ancestry: emitters that were separately created but received the same fragment (Append) or
+	// were cloned from the same parent, before the goroutines started; afterwards each is driven only by
+	// its own goroutine
+	{
+		G := r.N(16, 48)
+		g0 := r.Rand("ancestry")
+		labels := []string{"shared_a", "shared_b", "shared_c", "shared_d"}
+		build := func() []*asm.Emitter {
+			g := vf.NewRng(g0.Fork(1).U64())
+			frag := asm.NewEmitter(make([]byte, 4096), true)
+			for _, l := range labels {
+				for k := 1 + g.Intn(9); k > 0; k-- { // 1..9 pending references: lists with and without spare capacity
+					if g.Bool() {
+						frag.JMP_abs(l)
+					} else {
+						frag.BNE(l)
+					}
+					frag.NOP()
+				}
+			}
+			es := make([]*asm.Emitter, G)
+			for i := range es {
+				if i%2 == 0 {
+					es[i] = asm.NewEmitter(make([]byte, 8192), true)
+					es[i].Append(frag)
+				} else {
+					es[i] = frag.Clone(make([]byte, 8192))
+				}
+			}
+			return es
+		}
+		drive := func(e *asm.Emitter, i int) uint64 {
+			g := vf.NewRng(uint64(i)*0x9E3779B97F4A7C15 + 7)
+			d := uint64(1469598103934665603)
+			pan := vf.Try(func() {
+				for k := 0; k < 6; k++ {
+					l := labels[g.Intn(len(labels))]
+					for n := g.Intn(4); n > 0; n-- {
+						e.NOP()
+					}
+					if g.Bool() {
+						e.JMP_abs(l)
+					} else {
+						e.BEQ(l)
+					}
+				}
+				for _, l := range labels {
+					e.Label(l)
+					e.RTS()
+				}
+				err := e.Finalize()
+				d = mixStr(d, fmt.Sprint(err))
+				d = mixDigest(d, e.Bytes()...)
+				t, _, _ := listText(e)
+				d = mixStr(d, t)
+			})
+			if pan != nil {
+				d = mixStr(d, fmt.Sprint("panic:", pan))
+			}
+			return d
+		}
+		solo := make([]uint64, G)
+		for i, e := range build() {
+			solo[i] = drive(e, i)
+		}
+		conc := make([]uint64, G)
+		es := build()
+		vf.Parallel(G, G, func(w, i int) { conc[i] = drive(es[i], i) })
+		for i := range conc {
+			if conc[i] != solo[i] {
+				r.Fail("result-differs-from-solo", fmt.Sprintf("emitter %d of %d with common ancestry (same fragment appended / same parent cloned before the goroutines started), driven on its own goroutine: digest %016x, %016x alone", i, G, conc[i], solo[i]), nil)
+				break
+			}
+		}
+		r.Eval(int64(2 * G))
+		r.CellN("common-ancestry-emitters", int64(G))
 	}
 	r.SetExtra("library_hooks_build", hooksBuild)
 	if exe := os.Getenv("VERIF_BIN_HOOKS"); exe != "" && !hooksBuild {
